@@ -101,6 +101,22 @@ let judge_case (c : scase) (o : iobs) =
   List.iter (fun w ->
       bump applicable "C03";
       if not (tx_wellformed (bytes_of_hex w)) then report "C03" c ("malformed frame written: " ^ w)) o.written;
+  (* ... and each frame carries the command and the address of the call it was written for
+     ("a Get for address a carries exactly the payload a_lo a_hi 00"): the frames are, call by
+     call and in call order, repetitions of that call's own frame *)
+  let frame_of (k : scall) : string =
+    let cmd = (match k.kind with "ping" -> 1 | "devid" -> 4 | "cmd" -> k.cmd land 255 | _ -> 7) in
+    let addr = (match k.kind with "ping" | "devid" -> 0 | _ -> k.addr land 65535) in
+    hex_of_bytes (tx_frame (z_of_int cmd) (z_of_int addr)) in
+  let rec consume frames cs = (match frames with
+      | [] -> None
+      | f :: r -> (match cs with
+          | [] -> Some f
+          | k :: cr -> if f = frame_of k then consume r cs else consume frames cr)) in
+  bump applicable "C03";
+  (match consume o.written calls with
+   | Some f -> report "C03" c ("a frame does not carry the command and address of the call it was written for: " ^ f)
+   | None -> ());
   (* ---- C04: abstract line machine (fault-free, EOF-mode scripts; get calls only) ---- *)
   let no_faults = List.for_all (fun b -> not b) c.wf && not c.np in
   let rec empty_run l n best = match l with
